@@ -147,6 +147,16 @@ def fp_div(a, b):
     return z3.fpDiv(RNE, a, b) if _FP_EXACT else _uf('f64.div')(a, b)
 
 
+def to_single(x):
+    """binary64 term x rounded to binary32 and widened again; the round trip of a widened binary32 is the identity"""
+    try:
+        if z3.is_app(x) and x.decl().kind() == z3.Z3_OP_FPA_TO_FP and x.num_args() == 2 and x.arg(1).sort() == F32:
+            return x
+    except z3.Z3Exception:
+        pass
+    return z3.fpFPToFP(RNE, z3.fpFPToFP(RNE, x, F32), F64)
+
+
 def width_for(bounds):
     """smallest two's complement width among 16/32/64 that holds the interval"""
     if bounds is not None:
@@ -740,6 +750,16 @@ class Path:
             if cond:
                 self.results.append(ObligationResult(name, 'trivial', path_id=self.id))
             else:
+                # the obligation is false on this path: a violation iff the path is really feasible
+                r0 = self.solver.check()
+                if r0 == z3.unsat:
+                    self.results.append(ObligationResult(name, 'discharged', path_id=self.id))
+                    return True
+                if r0 != z3.sat:
+                    self.results.append(ObligationResult(
+                        name, 'undecided', detail=f'false on a path whose feasibility is unknown ({self.solver.reason_unknown()}) {detail}',
+                        path_id=self.id))
+                    return None
                 res = ObligationResult(
                     name, 'failed', model=self.model_of(None), detail=detail or 'false on this path',
                     path_id=self.id)
